@@ -292,6 +292,14 @@ func genC15Dyn(t *rapid.T, cfg *core.Config) *core.Case {
 		}
 	}
 	x := core.Bin(rapid.SampledFrom([]string{"in", "not in"}).Draw(t, "inop"), needle, arr, core.TBool)
+	if anyTy != "string" && rapid.IntRange(0, 3).Draw(t, "eqshape") == 0 {
+		// the int-only (in)equality instruction is selected on the same static claim
+		other := []*core.X{core.LitInt(rapid.IntRange(0, 4).Draw(t, "eqlit")), core.Var("I", core.TInt), core.Cond(core.Var("T", core.TBool), core.LitNil(), core.LitInt(2), core.TInt)}[rapid.IntRange(0, 2).Draw(t, "eqother")]
+		x = core.Bin(rapid.SampledFrom([]string{"==", "!="}).Draw(t, "eqop"), needle, other, core.TBool)
+		if rapid.Bool().Draw(t, "eqclos") {
+			x = core.Builtin("count", core.Arr(core.TAInt, any, core.LitInt(1), core.LitFloat(2.5)), core.Bin("==", core.Bin("+", &core.X{K: "ptr", Ty: core.TInt}, core.LitInt(1), core.TInt), core.LitInt(2), core.TBool), core.TInt)
+		}
+	}
 	if rapid.IntRange(0, 2).Draw(t, "wrap") == 0 {
 		x = core.Cond(x, core.LitInt(1), core.LitInt(2), core.TInt)
 	}
